@@ -6,7 +6,9 @@
 // Admin commands go through the public propose path of one-node raft groups
 // (Store.ProposeSplit / ProposeMerge), as raftstore/store's own tests do. A restart closes the
 // peers, the store and the manifest, reopens the manifest and builds a new Store from it; the
-// listing of that fresh store is the "Reload" observation.
+// listing of that fresh store is the "Reload" observation. "Rewrite" forces a manifest rewrite
+// (snapshot of the current version into a new manifest file); schedules with autorewrite make the
+// manifest do that by itself after every edit.
 package main
 
 import (
@@ -42,6 +44,8 @@ type schedule struct {
 	Top  int          `json:"top"`
 	Init []initRegion `json:"init"`
 	Ops  []op         `json:"ops"`
+	// AutoRewrite: the manifest rewrites itself after every edit (rewrite threshold of one byte)
+	AutoRewrite bool `json:"autorewrite"`
 }
 
 // boundary position -> byte key; position 0 (as a start) and Top (as an end) are unbounded = ""
@@ -68,6 +72,9 @@ func runSchedule(dir string, s *schedule, w *vt.Writer) {
 	env, err := rstore.Open(d, nil)
 	if err != nil {
 		vt.Fatal("open: %v", err)
+	}
+	if s.AutoRewrite {
+		env.SetRewriteThreshold(1)
 	}
 	defer func() {
 		if r := recover(); r != nil {
@@ -120,6 +127,8 @@ func runSchedule(dir string, s *schedule, w *vt.Writer) {
 		case "SetState":
 			err = env.St.UpdateRegionState(o.Region, manifest.RegionState(o.State))
 			dead = append(dead, o.Region)
+		case "Rewrite":
+			err = env.Mgr.Rewrite()
 		case "Reload":
 			restart(n)
 			continue
